@@ -1,6 +1,6 @@
 (* Entry.v — named entry points: sx case -> sx result.  Used by the extracted
    driver and by the in-kernel replays (vm_compute). *)
-From WD Require Import Base LetterId Wire Protocol Conn Color Matcher MatcherParse Show Session Decode Render.
+From WD Require Import Base LetterId Wire Protocol Conn Color Matcher MatcherParse Show Session Decode Render Extract.
 
 Definition e_n2l (a : sx) : sx :=
   match a with
@@ -234,10 +234,26 @@ Definition e_uiloop (a : sx) : sx :=
   | _ => sx_err
   end.
 
+(* (kind addr target_iface closure time) -> (conn id, message); kind 0 = received on client,
+   1 = received on server, 2 = sent *)
+Definition e_extract (a : sx) : sx :=
+  match a with
+  | SL [SZ k; SZ addr; SS target; cl; SZ time] =>
+      match get_closure cl with
+      | Some c =>
+          let kind := if Z.eqb k 0 then RecvClient else if Z.eqb k 1 then RecvServer else Sent in
+          SL [SS (conn_id_of (Z.to_N addr)); sx_res sx_pmsg (extract_message kind target c time);
+              sx_bool (wf_closure c)]
+      | None => sx_err
+      end
+  | _ => sx_err
+  end.
+
 Definition entries (P : pdb) : list (str * (sx -> sx)) :=
   [ (s2l "n2l", e_n2l);
     (s2l "l2n", e_l2n);
     (s2l "mparse", e_mparse);
+    (s2l "extract", e_extract);
     (s2l "uiloop", e_uiloop);
     (s2l "decode", e_decode);
     (s2l "render", e_render);
